@@ -29,9 +29,12 @@ import (
 func init() {
 	fw.Register(&fw.Prop{
 		ID:                  "C15",
-		DeadlockIsViolation: true,                       // the calls of this property are synchronous functions of their inputs: a call blocked for good inside the library is a violation
-		Builds:              []string{"default", "386"}, // the 386 build runs a quarter of the random classes on a 32-bit target
-		Parallel:            4,                          // cases are judged on 4 goroutines per shard: the library functions are stateless, shared state inside them shows up as wrong verdicts
+		DeadlockIsViolation: true,                               // the calls of this property are synchronous functions of their inputs: a call blocked for good inside the library is a violation
+		Builds:              []string{"default", "386", "race"}, // the 386 build runs a quarter of the random classes on a 32-bit target
+		// race build: only the classes in which several goroutines are inside the library at once, under the race detector
+		RaceClasses: []string{"style", "fail"},
+		RaceSample:  8,
+		Parallel:    4, // cases are judged on 4 goroutines per shard: the library functions are stateless, shared state inside them shows up as wrong verdicts
 		Rule: "sweep: one case per (hash, n): every n in 0..1500 (thorough 0..20000) for SHA-256, every n in 0..300 (thorough 0..4000) and every 5th n above for SHA-512, BLAKE2b-256 and SHA-1, and 2^k-1, 2^k, 2^k+1 for k up to 14 (thorough 18) for all four, plus for SHA-256 leaf counts around 2^15..2^18 (thorough 2^20) and sums of two powers of two (+0, +1); the payload style rotates with n over {random 0..40 bytes, all empty, all equal, one byte, a few long leaves, leaves starting with 0x00/0x01 of node-preimage length, mixed}. " +
 			"style: random (hash, n <= 3000) under every payload style. fail: 1..4 leaves at seeded positions (first, last, around the split point, random; n up to 3000 and some lists of 4096..16000 leaves) return distinct errors, the failing leaf with the lowest index is slow (injected 3 ms delay) in half of the cases; Hasher objects are shared between cases and goroutines in three quarters of the cases. empty: nil and empty slices. " +
 			"Each case: Hash over instrumented leaves vs. the model's bottom-up root; RFC 6962 audit paths produced by the model for leaf 0, n-1, the leaves around the split point and random leaves are verified against the library's root with the RFC 9162 2.1.3.2 algorithm; the leaf slice, the elements behind its length and every payload are compared with their state before the call; a second call with leaves of other Go types (value-typed, nil instead of empty payloads, and leaves whose MarshalBinary calls back into the same Hasher to hash a nested 3-leaf tree) must give the same root; with failing leaves the error must be that of the lowest failing index, or of the first failing MarshalBinary call the library actually made (the same leaf for a left-to-right traversal), and no hash may be returned. " +
